@@ -141,7 +141,7 @@ def run(ctx):
     if not vc.prepare(ctx, 'C11'):
         return rep.finish({'evaluations': 0, 'distinct_nontrivial': 0, 'rule': 'harness did not build', 'samples': []}, [])
     quick = ctx.tier == 'quick'
-    cases = gen_timed(ctx, 400 if quick else 6000)
+    cases = gen_timed(ctx, 1200 if quick else 6000)
     impl, model = vc.run_cases(ctx, cases, timeout_ms=20000)
     n_or = n_mm = 0
     kinds = {}
@@ -164,7 +164,7 @@ def run(ctx):
             if n_mm <= 3:
                 rep.violation('correspondence', {'property': 'C11', 'kind': 'model-vs-implementation', 'seed': ctx.seed, 'case': c['id'],
                                                  'program': c['text'], 'implementation': got, 'model': model.get(c['id']), 'line': c['line']})
-    hist = gen_histories(ctx, 150 if quick else 3000)
+    hist = gen_histories(ctx, 400 if quick else 3000)
     himpl, hmodel = vc.run_cases(ctx, hist, timeout_ms=30000)
     n_h = 0
     for c in hist:
